@@ -8,15 +8,105 @@ VERIF = os.path.dirname(os.path.dirname(os.path.abspath(__file__)))
 
 # id -> (technique, level text, level note, design ref)
 CHECKS = {
+    "C01": (
+        "lock-step differential monitor at instruction boundaries: real CPU vs instruction-level reference interpreter",
+        "The real machine is clocked edge by edge; at every instruction boundary R0-R2, PC, FR, SP, all 240 RAM cells, FE/FF and (when touched) the board/timer/UART registers are compared with an independent ISA interpreter. The register-register ALU group (8 opcodes x 16 register pairs x 65 536 values x carry-in) and the unary/JR/flag groups are enumerated completely in both tiers; two-byte forms, stack/CALL/RETI/DEC-memory forms and random instruction sequences are sampled (seeded). Exhaustive for the enumerated groups, exploration for the rest.",
+        "Trusted: harness/src/refmodel/isa.rs (DESIGN.md appendix A); bus addresses 0xF0-0xFB are delegated to a clone of the real Bus; instructions that read 0xF9 or use second bytes 0x02-0x0F are executed but not compared.",
+        "DESIGN.md §3 C01",
+    ),
+    "C02": (
+        "differential monitor: real translator vs reference encoder, per source line",
+        "About 2 100 instruction shapes (every form x operand shape x register) are each placed after random directive prefixes with forward/backward/mixed-case label references, and seeded random multi-line programs go text -> real parser -> real translator; byte groups per line, reported lines, *STACKSIZE/*PROGRAMSIZE and the image are compared with an independent encoder.",
+        "Trusted: harness/src/refmodel/asm.rs (instruction table of C02). Programs outside the quantifier (image > 240 bytes, backward .ORG) are not generated here.",
+        "DESIGN.md §3 C02",
+    ),
+    "C03": (
+        "generator-knows-the-answer + hand-written recogniser as oracle, catch_unwind for panics",
+        "Grammar-derived programs must parse to exactly the generating AST; a table of directed boundary texts carries hand-written verdicts; single-token mutants and random strings are judged by an independent three-valued recogniser (accept with AST / reject / unspecified). Every input runs under catch_unwind and every error value is rendered.",
+        "Trusted: harness/src/refmodel/grammar.rs and the generator harness/src/gen/asmtext.rs; spellings the documentation leaves open are only checked for 'no panic'.",
+        "DESIGN.md §3 C03",
+    ),
+    "C04": (
+        "self-differential monitor: interrupted run vs uninterrupted run of the same real machine, every clock cycle as trigger point",
+        "For each generated program the uninterrupted run is recorded cycle by cycle; then every cycle (and pairs of cycles in a window) is used as key-interrupt trigger by resuming from the per-cycle snapshot. Entry count, stack contents and IE at entry and the complete final state (registers, flags, SP, PC, outputs, live RAM) are compared. Exhaustive over trigger cycles per program, sampled over programs.",
+        "Trusted: the uninterrupted run (its own correctness is C01's). Requests latched while IE is clear or while another is latched are unspecified: only entries <= triggers and transparency are asserted.",
+        "DESIGN.md §3 C04",
+    ),
+    "C05": (
+        "invariant monitor evaluated after every single clock edge (hooked sequencer state)",
+        "5 stack sizes x program-size limit classes x directed and random programs; after every edge the monitor's own band/limit predicates are evaluated against the registers and the reported state (no Running with invalid registers, halt exactly for the listed reasons), and every halted state reached is stressed with clock edges in both step modes, interrupts, setters, continue and resets.",
+        "Trusted: the monitor's band table. 'Opcode fetched' = byte loaded into the instruction register; halts caused by 0x00/0x01 as SECOND byte of a two-byte form are accepted but not required.",
+        "DESIGN.md §3 C05",
+    ),
+    "C06": (
+        "crash monitor: catch_unwind around translator and loader in process, exit status of the real binary at process level",
+        "Programs from the grammar generator without layout restrictions (any label case, DEC operands, .ORG anywhere, images beyond 256 bytes); whatever the real parser accepts is compiled and loaded under catch_unwind, and a sample goes through `2a-emulator verify` / `run`. Two crash families are genuine open defects and are listed in known_findings.json by (layout class, panic site).",
+        "Trusted: nothing but the classification of a panicking program as well-formed / backward-.ORG / larger-than-RAM by the harness's own layout rules.",
+        "DESIGN.md §3 C06",
+    ),
+    "C07": (
+        "invariant monitor on hooked state after every prefix of random histories + lock-step comparison with a fresh machine",
+        "Random histories over loads, clock edges in both step modes, interrupts, continue, resets, input and board setters; after every prefix each reset kind is applied to a clone and the documented post-state is checked field by field (getters + snapshot hooks); a follow-up program is loaded and run cycle for cycle against a newly created machine.",
+        "Trusted: the list of power-on values in DESIGN.md §3 C07. MISR/USR/UART data and board status bits are not asserted.",
+        "DESIGN.md §3 C07",
+    ),
     "C08": (
         "exhaustive differential monitor: real ALU vs reference function table",
-        "All 2 097 152 input points (16 functions x 256 x 256 x carry-in) are pushed through the real AluOutput::from_input in both tiers and compared field by field (result, carry, zero, negative) with an independently written function table; a finite space enumerated completely, so for this property the run is a complete decision of the function as compiled in the checked profile (thorough repeats it in the release profile).",
-        "Trusted: the reference table harness/src/refmodel/alu.rs (transcribed from the AluSelect doc comments and the property statement).",
+        "All 2 097 152 input points (16 functions x 256 x 256 x carry-in) are pushed through the real AluOutput::from_input in both tiers and compared field by field with an independently written function table; a finite space enumerated completely.",
+        "Trusted: harness/src/refmodel/alu.rs (AluSelect doc comments + statement of C08).",
         "DESIGN.md §3 C08",
+    ),
+    "C09": (
+        "control-flow graph extracted through the real next-address code (forced states, one real clock edge each) + offline graph checker; concrete loop runs",
+        "All 512 micro-addresses x 256 IR values x 16 flag nibbles x 6 ALU condition outcomes x pending interrupt (and all 256 loaded bytes at opcode-loading words) are forced on the real machine; the successor graph is checked for zero words, cycles, completion of exactly the defined first bytes and defined second bytes, and routine containment; MUL and DIV run concretely for all 65 536 operand pairs. Exhaustive.",
+        "Trusted: hook verif_force_control; only the successor function is abstracted.",
+        "DESIGN.md §3 C09",
+    ),
+    "C10": (
+        "reference-model monitor (address-map model), exhaustive single operations + random sequences",
+        "All 256 addresses x 256 values written to a randomised bus and all 256 addresses read back; all 65 536 ordered write-address pairs; random read/write/set-input sequences checked after every operation against a map model; reads must leave the bus == its clone.",
+        "Trusted: the map model (only what C10 states).",
+        "DESIGN.md §3 C10",
+    ),
+    "C11": (
+        "offline checker over the clock edge log of one assembly step + full-state equality with a clock-stepped clone; fuel for termination",
+        "States sampled along random-program runs (every cycle of short runs; interrupts latched, waits pending, halted machines): the edge log of one assembly step must end exactly at the next boundary/halt, the stepped clone must equal a clone given the same number of single edges, random mode switches must not alter a run, and every opcode byte / second byte must let the step return (bounded progress, 20 000 edges).",
+        "Trusted: hook edge log. 'Returns' is restated as 'returns within 20 000 clock edges'.",
+        "DESIGN.md §3 C11",
+    ),
+    "C12": (
+        "reference-loop monitor: harness steps the documented loop itself and compares full machine equality; CLI stdout/exit status checked at process level",
+        "Generated programs x budgets (0, 1, around the halting cycle, random) x interrupt/reset multisets x configurations: RunnerConfig::run() vs the harness's stepping (Machine ==, cycle count); verify() over all 8 subsets x match/mismatch; the real binary with arguments in all three radices: printed values and exit status.",
+        "Trusted: the real parser/translator to obtain the byte code (C02/C03). Interrupt before reset when both fall on one cycle.",
+        "DESIGN.md §3 C12",
+    ),
+    "C13": (
+        "crash monitor: catch_unwind + clock-edge fuel around random interleavings; post-run liveness probes",
+        "RAM images (uniform, opcode-biased, I/O-biased, constant fills) x 5 stack sizes x limits x stimulus schedules incl. NaN/inf voltages, every call under catch_unwind in the overflow-checking profile; afterwards all getters, all bus reads and decoders are exercised and the machine stepped on; direct bus writes/reads of every address x value.",
+        "Sanitizers/Miri are not used: the repository has no unsafe code, threads or FFI (DESIGN.md §0).",
+        "DESIGN.md §3 C13",
+    ),
+    "C14": (
+        "per-operation pre/post relation monitor (pre-state read from the real board) + f32 bit-pattern sweep",
+        "Random interleavings of writes to 0xF0-0xF3 and external setters with adversarial f32 values, every relation of C14 checked after each operation; clamp rule swept over f32 bit patterns (every 256th pattern + boundaries in quick, all 2^32 in thorough).",
+        "Trusted: the relations as written in DESIGN.md §3 C14 (fan supply = DAC1 output; UOR/UDR/ICR writes are not external changes).",
+        "DESIGN.md §3 C14",
+    ),
+    "C15": (
+        "offline checker over the clock edge log between instruction boundaries vs documented path lengths",
+        "Every instruction of the shared single-instruction/sequence workload (MUL/DIV over all 65 536 pairs): executed steps = documented path length, accesses in documented order, exactly one wait after each RAM-touching step and none otherwise, wait edges change nothing but the flag, same cost inside an assembly step.",
+        "Trusted: path lengths of DESIGN.md appendix A (refmodel::isa).",
+        "DESIGN.md §3 C15",
+    ),
+    "C16": (
+        "round-trip monitor: parse -> Display -> parse, AST equality",
+        "Seeded programs from the grammar generator (all forms/values, Unicode comments, long data lines, 40 labels, header comments) are parsed, rendered and parsed again; the ASTs must be equal line by line.",
+        "Trusted: nothing beyond the real parser on its first pass (checked by C03).",
+        "DESIGN.md §3 C16",
     ),
 }
 
-NOT_YET = {}
+NOT_YET = {"C17": "monitor under construction in this round: the headless TUI driver hook (H5) is being added; runtime monitoring applies (DESIGN.md §3 C17)"}
 
 
 def main():
